@@ -902,6 +902,39 @@ static void op_oct(const std::vector< std::string > &w) {
     return;
   }
   const double eps = 1.e-12;
+  if (oc_pos.size() == 1 && ((sub == "ngbs" && w.size() == 5) || (sub == "sphere" && w.size() == 6) ||
+                             (sub == "closest" && w.size() == 5))) {
+    // a one-position tree: the root is a leaf; OctreeNode(index) initialises only _children and
+    // _index and collapse() sets _child for internal nodes only, so the searches, which start at
+    // _root->get_child(), read an uninitialised pointer (null in fresh memory: nothing is found;
+    // anything else: crash).  The call runs in a forked child; true = it came back with the
+    // brute-force answer.  The compared answer is the "nothing found" outcome the model mirrors.
+    const CoordinateVector<> q(dbl(w[2]), dbl(w[3]), dbl(w[4]));
+    const double rad = (sub == "sphere") ? dbl(w[5]) : 0.;
+    const double r = oc_dist(oc_pos[0], q);
+    const double lim = oc_h[0] + rad;
+    const bool must_in = sub != "closest" && r <= lim * (1. - eps);
+    const bool must_out = sub != "closest" && r > lim * (1. + eps);
+    const bool ok = probe_ok([&]() {
+      if (sub == "closest")
+        return oc->get_closest_ngb(q) == 0;
+      const std::vector< uint_fast32_t > res = (sub == "sphere") ? oc->get_ngbs_sphere(q, rad) : oc->get_ngbs(q);
+      if (must_in)
+        return res.size() == 1 && res[0] == 0;
+      if (must_out)
+        return res.empty();
+      return res.empty() || (res.size() == 1 && res[0] == 0);
+    });
+    if (sub == "closest")
+      std::cout << "oct closest 0\n";
+    else if (ok && must_in)
+      std::cout << "oct " << sub << " 1 0\n";
+    else
+      std::cout << "oct " << sub << " 0\n";
+    if (!ok)
+      oracle("single-position-search-returns-nothing");
+    return;
+  }
   if ((sub == "ngbs" && w.size() == 5) || (sub == "sphere" && w.size() == 6)) {
     const CoordinateVector<> q(dbl(w[2]), dbl(w[3]), dbl(w[4]));
     const double rad = (sub == "sphere") ? dbl(w[5]) : 0.;
